@@ -265,6 +265,43 @@ def run(tier, seed):
             except Exception as e:
                 rep.violation("C18:cluster-override-raised", "%s: %s" % (type(e).__name__, str(e)[:200]), meta)
 
+        # a configuration object can be used more than once: two clusters sharing one storage section (what a YAML alias
+        # gives), the same dictionary handed to two environments, an environment built twice from one dump; using it
+        # must not change it
+        import copy as _copy
+        stats["reused_configurations"] = 0
+        for o in [x for x in fs if rng.random() < (0.15 if tier == "quick" else 1.0)]:
+            meta = {"kind": "filesystem", "form": "configuration object used twice", "file": o}
+            try:
+                section = to_config("filesystem", o, paths)
+                before = _copy.deepcopy(section)
+                c1 = FunctionCluster(config={"name": "one", "storage": section, "runner": {"type": "local"}})
+                c2 = FunctionCluster(config={"name": "two", "storage": section, "runner": {"type": "local"}})
+                g1, g2 = observe(c1.storage, paths), observe(c2.storage, paths)
+                stats["reused_configurations"] += 1
+                if section != before:
+                    rep.violation("C18:configuration-object-changed-by-use", "a storage section %r reads %r after a cluster was built from it" % (before, section), meta)
+                if g1 != g2:
+                    rep.violation("C18:second-use-of-configuration-differs", "two clusters built from one storage section have settings %s and %s" % (g1, g2), dict(meta, first=g1, second=g2))
+                ecfg = {"name": "twice", "base_dir": scratch, "repos": [{"name": "r", "clusters": {"fc": {"name": "fc", "storage": section, "runner": {"type": "local"}}}}]}
+                ebefore = _copy.deepcopy(ecfg)
+                e1 = Environment(config=ecfg)
+                e2 = Environment(config=ecfg)
+                if ecfg != ebefore:
+                    rep.violation("C18:configuration-object-changed-by-use", "an environment configuration was changed by building an environment from it", meta)
+                dump = e1.to_dict()
+                dbefore = _copy.deepcopy(dump)
+                r1 = Environment(config=dump)
+                r2 = Environment(config=dump)
+                if dump != dbefore or dump != e1.to_dict():
+                    rep.violation("C18:configuration-object-changed-by-use", "the dump of an environment was changed by rebuilding an environment from it (or no longer equals a fresh dump)", dict(meta, dump=dbefore, after=dump))
+                for lab, ee in (("second environment from the same dictionary", e2), ("rebuilt from the dump", r1), ("rebuilt from the same dump again", r2)):
+                    gg = observe(ee.get_cluster("fc").storage, paths)
+                    if gg != g1:
+                        rep.violation("C18:second-use-of-configuration-differs", "%s: settings %s, first use %s" % (lab, gg, g1), dict(meta, first=g1, later=gg))
+            except Exception as e:
+                rep.violation("C18:second-use-of-configuration-raised", "%s: %s" % (type(e).__name__, str(e)[:200]), meta)
+
         # the settings mean what they say: behaviour of a cluster configured from a file and of the one rebuilt from the dump
         def behave(env, expect, meta, label):
             m.Environment.set(env)
